@@ -17,7 +17,7 @@ def generate(tier, seed):
     g3, ge, gl, gd, g2, gp, gk = outs
     if len(g3) < 3000 or len(ge) < 3000 or len(gl) < 2560 or len(gd) < 3456 or len(g2) < 800:
         raise C.ToolError("graph generation incomplete: %d %d %d %d %d" % (len(g3), len(ge), len(gl), len(gd), len(g2)))
-    if len(gp) < 192:
+    if len(gp) < 192 + 360:
         raise C.ToolError("pair-root generation incomplete: %d" % len(gp))
     if len(gk) < 288:
         raise C.ToolError("node-kind generation incomplete: %d" % len(gk))
